@@ -634,6 +634,9 @@ impl<'a, 'ast> Visit<'ast> for R4Find<'a> {
                     return None;
                 };
                 Some((pat, self.text[br(&*c.body)].to_string()))
+            } else if let Expr::Path(pth) = e {
+                // a function item passed by name: `x.map_or(d, f)` == `match x { Some(v) => f(v), None => d }`
+                Some(("__v".to_string(), format!("{}(__v)", self.text[br(pth)].to_string())))
             } else {
                 None
             }
@@ -652,6 +655,9 @@ impl<'a, 'ast> Visit<'ast> for R4Find<'a> {
                 format!("(match {recv} {{ {some}({p}) => {b}, {none_pat} => {} }})", t(args[0]))
             }
             ("map_or_else", 2) => {
+                if !matches!(args[0], Expr::Closure(_)) {
+                    return;
+                }
                 let (Some((_, d)), Some((p, b))) = (clos(args[0]), clos(args[1])) else { return };
                 if closure_has_escape(args[0]) || closure_has_escape(args[1]) {
                     self.err = Some("R4: closure contains return/?".into());
@@ -684,6 +690,9 @@ impl<'a, 'ast> Visit<'ast> for R4Find<'a> {
                 format!("(match {recv} {{ {some}({p}) => {b}, {none_pat} => {none_id} }})")
             }
             ("unwrap_or_else", 1) => {
+                if !matches!(args[0], Expr::Closure(_)) {
+                    return;
+                }
                 let Some((p, b)) = clos(args[0]) else { return };
                 if closure_has_escape(args[0]) {
                     self.err = Some("R4: closure contains return/?".into());
@@ -729,6 +738,71 @@ fn r4_pass(mut text: String, is_method: bool, result_methods: &HashSet<String>, 
         }
     }
     Err("R4 did not converge".into())
+}
+
+
+// ------------------------------------------------------------------------------------------
+// R12: a guarded match arm directly followed by the final wildcard arm
+//        `P if G => A, _ => B`   ==   `P => if G { A } else { B }, _ => B`
+//      (when G is false matching falls through to the only remaining arm, the wildcard, which binds nothing).
+//      Needed because this Verus build mis-handles `return` in the arm after a guarded arm inside a loop.
+// ------------------------------------------------------------------------------------------
+struct R12Find<'a> {
+    text: &'a str,
+    found: Option<Vec<Edit>>,
+}
+impl<'a, 'ast> Visit<'ast> for R12Find<'a> {
+    fn visit_expr_match(&mut self, m: &'ast syn::ExprMatch) {
+        visit::visit_expr_match(self, m);
+        if self.found.is_some() {
+            return;
+        }
+        let n = m.arms.len();
+        if n < 2 {
+            return;
+        }
+        let last = &m.arms[n - 1];
+        if !matches!(last.pat, syn::Pat::Wild(_)) || last.guard.is_some() {
+            return;
+        }
+        let g = &m.arms[n - 2];
+        let Some((if_tok, guard)) = &g.guard else { return };
+        let body = br(&*g.body);
+        let rest = self.text[br(&*last.body)].to_string();
+        let wrap = |s: &str| if s.trim_start().starts_with('{') { s.to_string() } else { format!("{{ {s} }}") };
+        let gtxt = self.text[br(&**guard)].to_string();
+        let btxt = self.text[body.clone()].to_string();
+        let mut edits = vec![];
+        // remove ` if G`
+        edits.push(Edit { start: br(if_tok).start, end: br(&**guard).end, rep: String::new() });
+        edits.push(Edit { start: body.start, end: body.end, rep: format!("if {gtxt} {} else {}", wrap(&btxt), wrap(&rest)) });
+        self.found = Some(edits);
+    }
+}
+
+fn r12_pass(mut text: String, is_method: bool, cnt: &mut Counters) -> Result<String, String> {
+    for _ in 0..100 {
+        let edits;
+        {
+            let mut f = R12Find { text: &text, found: None };
+            if is_method {
+                let ast: syn::ImplItemFn = syn::parse_str(&text).map_err(|e| format!("reparse (R12): {e}"))?;
+                f.visit_impl_item_fn(&ast);
+            } else {
+                let ast: syn::ItemFn = syn::parse_str(&text).map_err(|e| format!("reparse (R12): {e}"))?;
+                f.visit_item_fn(&ast);
+            }
+            edits = f.found;
+        }
+        match edits {
+            None => return Ok(text),
+            Some(e) => {
+                cnt.bump("R12_match_guard");
+                text = apply_edits(&text, e);
+            }
+        }
+    }
+    Err("R12 did not converge".into())
 }
 
 // ------------------------------------------------------------------------------------------
@@ -831,6 +905,9 @@ pub struct FnSpec {
     pub r4result: HashSet<String>,
     pub attrs: Vec<String>,
     pub tail: Option<String>,
+    pub drops: Vec<(usize, String)>,
+    pub open: Vec<String>,
+    pub guards: bool,
 }
 
 fn check_ghost_only(what: &str, s: &str) -> Result<(), String> {
@@ -881,6 +958,7 @@ pub struct Ctx<'a> {
     pub srcdir: String,
     pub sources: HashMap<String, Source>,
     pub cnt: Counters,
+    pub dropped: Vec<String>,
 }
 
 impl<'a> Ctx<'a> {
@@ -1056,6 +1134,7 @@ impl<'a> Ctx<'a> {
         let text1 = mutself_pass(text1, is_method, &mut self.cnt)?;
         // pass 2 (R4)
         let text2 = r4_pass(text1, is_method, &fs.r4result, &mut self.cnt)?;
+        let text2 = if fs.guards { r12_pass(text2, is_method, &mut self.cnt)? } else { text2 };
         // pass 3 (R7)
         let (sig_ident, output, block, sig_range, fn_start): (Range<usize>, Option<Range<usize>>, Range<usize>, Range<usize>, usize);
         let tail_range: Option<Range<usize>>;
@@ -1099,13 +1178,13 @@ impl<'a> Ctx<'a> {
                 None => return Err(format!("{}: //@ret on a function without return type", fs.path)),
             }
         }
-        if !fs.spec.trim().is_empty() {
+        if !fs.spec.trim().is_empty() && !fs.external {
             self.cnt.bump("R7_spec");
             edits.push(ins(block.start, format!("\n{}\n    ", fs.spec.trim_end())));
         }
         if fs.external {
             edits.push(ins(fn_start, "#[verifier::external_body]\n    ".into()));
-            edits.push(Edit { start: block.start, end: block.end, rep: "{ unimplemented!() }".into() });
+            edits.push(Edit { start: block.start, end: block.end, rep: format!("\n{}\n    {{ unimplemented!() }}", fs.spec.trim_end()) });
         } else {
             for (n, s) in &fs.loops {
                 let Some((at, _)) = an.loops.get(*n) else { return Err(format!("lost anchor: {} has no loop #{n}", fs.path)) };
@@ -1128,6 +1207,30 @@ impl<'a> Ctx<'a> {
                     edits.push(ins(*bs, "{ ".into()));
                     edits.push(ins(*be, " }".into()));
                 }
+            }
+            if !fs.open.is_empty() {
+                // reveal opaque ghost definitions for this function's proof (ghost only)
+                let r: Vec<String> = fs.open.iter().map(|x| format!("reveal({x});")).collect();
+                edits.push(ins(block.start + 1, format!("\n        proof {{ {} }}", r.join(" "))));
+            }
+            for (k, anchor) in &fs.drops {
+                // R11: a debug-only statement Verus cannot express (e.g. a debug_assert! whose condition calls
+                // allocating exec functions) is dropped; every dropped statement is listed in the map
+                let want = norm(anchor);
+                let mut hits = an.stmts.iter().filter(|(a, b)| norm(&text2[*a..*b]).starts_with(&want));
+                let Some((a, b)) = hits.nth(*k) else {
+                    if !self.cfg.on.contains("debug_assertions") {
+                        continue; // already configured out by R2
+                    }
+                    return Err(format!("lost anchor: {}: statement #{k} starting with `{anchor}` not found (drop)", fs.path));
+                };
+                let txt = norm(&text2[*a..*b]);
+                if !(txt.contains("debug_assert") || txt.starts_with("#[cfg(debug_assertions)]")) {
+                    return Err(format!("{}: //@drop only applies to debug-only statements", fs.path));
+                }
+                self.cnt.bump("R11_drop_debug_stmt");
+                self.dropped.push(format!("{}: {}", fs.path, &txt[..txt.len().min(160)]));
+                edits.push(Edit { start: *a, end: *b, rep: "/* R11: debug-only statement dropped */".into() });
             }
             for (before, k, anchor, s) in &fs.anchors {
                 check_ghost_only(&fs.path, s)?;
@@ -1219,6 +1322,8 @@ struct Gen<'a> {
     out: String,
     map: Vec<MapEntry>,
     trusted: Vec<String>,
+    assumed_depth: usize,
+    proved_elsewhere: Vec<String>,
 }
 
 fn kv<'x>(parts: &[&'x str], key: &str) -> Option<&'x str> {
@@ -1319,7 +1424,17 @@ impl<'a> Gen<'a> {
                     }
                     "include" => {
                         let p = format!("{}/{}", self.contracts, parts.get(1).ok_or("//@include needs a path")?);
-                        self.process(&p, depth + 1)?;
+                        // `//@include f assumed`: the functions of this fragment are proved in another unit of the
+                        // same check; here they appear with their contract only (external_body), to keep queries small
+                        let assumed = parts.contains(&"assumed");
+                        if assumed {
+                            self.assumed_depth += 1;
+                        }
+                        let r = self.process(&p, depth + 1);
+                        if assumed {
+                            self.assumed_depth -= 1;
+                        }
+                        r?;
                     }
                     "item" => {
                         let file = parts.get(1).ok_or("//@item file name")?;
@@ -1338,7 +1453,11 @@ impl<'a> Gen<'a> {
                         }
                         fs.rename = kv(&parts, "name").map(String::from);
                         fs.external = parts.contains(&"external");
-                        fs.nocanary = parts.contains(&"nocanary");
+                        let real_external = fs.external;
+                        if self.assumed_depth > 0 {
+                            fs.external = true;
+                        }
+                        fs.nocanary = parts.contains(&"nocanary") || self.assumed_depth > 0;
                         fs.nopub = parts.contains(&"nopub");
                         // sub-blocks
                         i += 1;
@@ -1379,6 +1498,21 @@ impl<'a> Gen<'a> {
                                         let n: usize = ps.get(1).and_then(|x| x.parse().ok()).ok_or("//@loop N")?;
                                         fs.loops.push((n, String::new()));
                                         cur = Cur::Loop(fs.loops.len() - 1);
+                                    }
+                                    "guards" => fs.guards = true,
+                                    "open" => {
+                                        for m in ps[1..].iter().flat_map(|x| x.split(',')) {
+                                            if !m.is_empty() {
+                                                fs.open.push(m.to_string());
+                                            }
+                                        }
+                                    }
+                                    "drop" => {
+                                        let n: usize = ps.get(1).and_then(|x| x.parse().ok()).ok_or("//@drop N anchor")?;
+                                        let rest = d.trim_start();
+                                        let rest = rest["drop".len()..].trim_start();
+                                        let rest = rest[ps[1].len()..].trim();
+                                        fs.drops.push((n, rest.to_string()));
                                     }
                                     "forghost" => {
                                         let n: usize = ps.get(1).and_then(|x| x.parse().ok()).ok_or("//@forghost N id")?;
@@ -1427,8 +1561,12 @@ impl<'a> Gen<'a> {
                         self.emit(&format!("    // <<< {}:{} {}", fs.file, e.src_line, fs.path));
                         self.emit(&format!("    {}", e.text));
                         let end = self.cur_line();
-                        self.map.push(MapEntry { gen_start: start, gen_end: end, kind: if fs.external { "external" } else { "fn" }, name: disp.clone(), file: fs.file.clone(), src_line: e.src_line, props: fs.props.clone() });
-                        if fs.external {
+                        let kind = if real_external { "external" } else if fs.external { "assumed_here" } else { "fn" };
+                        self.map.push(MapEntry { gen_start: start, gen_end: end, kind, name: disp.clone(), file: fs.file.clone(), src_line: e.src_line, props: fs.props.clone() });
+                        if fs.external && !real_external {
+                            self.proved_elsewhere.push(fs.path.clone());
+                        }
+                        if real_external {
                             self.trusted.push(format!("external_body (assumed contract): {} [{}:{}]", fs.path, fs.file, e.src_line));
                         }
                         if let Some(c) = e.canary {
@@ -1455,8 +1593,8 @@ impl<'a> Gen<'a> {
 pub fn gen(opts: &HashMap<String, String>) -> Result<(), String> {
     let get = |k: &str| opts.get(k).cloned().ok_or(format!("missing --{k}"));
     let cfg = Cfg { on: get("cfg")?.split(',').filter(|s| !s.is_empty()).map(String::from).collect() };
-    let ctx = Ctx { cfg: &cfg, srcdir: get("src")?, sources: HashMap::new(), cnt: Counters { r: HashMap::new() } };
-    let mut g = Gen { ctx, contracts: get("contracts")?, out: String::new(), map: vec![], trusted: vec![] };
+    let ctx = Ctx { cfg: &cfg, srcdir: get("src")?, sources: HashMap::new(), cnt: Counters { r: HashMap::new() }, dropped: vec![] };
+    let mut g = Gen { ctx, contracts: get("contracts")?, out: String::new(), map: vec![], trusted: vec![], assumed_depth: 0, proved_elsewhere: vec![] };
     let tpl = get("template")?;
     g.process(&tpl, 0)?;
     std::fs::write(get("out")?, &g.out).map_err(|e| e.to_string())?;
@@ -1483,7 +1621,7 @@ pub fn gen(opts: &HashMap<String, String>) -> Result<(), String> {
     cfgv.sort();
     let j = serde_json::json!({
         "template": tpl, "cfg": cfgv, "regions": regions, "trusted": g.trusted,
-        "assumption_scan": scan, "rewrites": rewrites,
+        "assumption_scan": scan, "rewrites": rewrites, "dropped": g.ctx.dropped, "proved_elsewhere": g.proved_elsewhere,
     });
     std::fs::write(get("map")?, serde_json::to_string_pretty(&j).unwrap()).map_err(|e| e.to_string())?;
     Ok(())
